@@ -415,6 +415,114 @@ func c09SignedSub() *engine.Sub {
 	}
 }
 
+// ---- envelopes with hostile signature / header shapes under every issuer key type ----
+
+type c09EnvCase struct {
+	Alg   string `json:"alg"`
+	Kind  string `json:"kind"`
+	Part  string `json:"part"`  // sig | header
+	Shape string `json:"shape"` // trunc | zeros | ones | der | extend | other-alg
+	N     int    `json:"n"`
+	Arg   string `json:"arg,omitempty"`
+}
+
+func (c *c09EnvCase) Weight() int { return c.N }
+
+func c09EnvSub() *engine.Sub {
+	derShapes := [][]byte{{0x30}, {0x30, 0x00}, {0x30, 0x80}, {0x30, 0x81}, {0x30, 0x02, 0x02, 0x00}, {0x30, 0x06, 0x02, 0x01, 0x00, 0x02, 0x01, 0x00}, {0x30, 0x84, 0xff, 0xff, 0xff, 0xff}, {0x02, 0x01, 0x01}, {0xff}}
+	return &engine.Sub{
+		Name:   "envelope-signature-and-header-shapes",
+		Repeat: true,
+		Rule:   "a genuine token of every issuer key type (Ed25519, secp256k1, P-256, P-384, P-521, RSA-2048, RSA-3072) whose signature element is replaced by: its first n bytes for every n (0 = empty), n zero bytes / n 0xff bytes for every n up to its length + 2, a set of degenerate DER fragments, the signature extended by 1..3 bytes; and whose varsig header is replaced by every truncation, an extension, the empty string and every other key type's header - offered to six decoders: no panic; non-trivial = all",
+		Bound:  func(string) string { return "7 key types x (3 x (len(sig)+3) signature shapes + 9 DER fragments + len(header)+8 header shapes) x 6 decoders" },
+		Gen: func(tier string, emit func(any) bool) {
+			for _, alg := range fixtures.Algs() {
+				p := splitEnvelope(baseSealed("dlg", alg, 0))
+				for _, sh := range []string{"trunc", "zeros", "ones"} {
+					for n := 0; n <= len(p.Sig)+2; n++ {
+						if sh == "trunc" && n >= len(p.Sig) {
+							continue
+						}
+						if !emit(&c09EnvCase{Alg: alg, Kind: "dlg", Part: "sig", Shape: sh, N: n}) {
+							return
+						}
+					}
+				}
+				for i := range derShapes {
+					if !emit(&c09EnvCase{Alg: alg, Kind: "dlg", Part: "sig", Shape: "der", N: i}) {
+						return
+					}
+				}
+				for n := 1; n <= 3; n++ {
+					if !emit(&c09EnvCase{Alg: alg, Kind: "inv", Part: "sig", Shape: "extend", N: n}) {
+						return
+					}
+				}
+				for n := 0; n < len(p.Header); n++ {
+					if !emit(&c09EnvCase{Alg: alg, Kind: "dlg", Part: "header", Shape: "trunc", N: n}) {
+						return
+					}
+				}
+				if !emit(&c09EnvCase{Alg: alg, Kind: "dlg", Part: "header", Shape: "extend", N: 1}) {
+					return
+				}
+				for _, other := range fixtures.Algs() {
+					if other != alg && !emit(&c09EnvCase{Alg: alg, Kind: "dlg", Part: "header", Shape: "other-alg", Arg: other}) {
+						return
+					}
+				}
+			}
+		},
+		NewCase: func() any { return &c09EnvCase{} },
+		Run: func(ctx *engine.Ctx, c any) {
+			cs := c.(*c09EnvCase)
+			p := splitEnvelope(baseSealed(cs.Kind, cs.Alg, 0))
+			sig, header := p.Sig, p.Header
+			switch cs.Part + "/" + cs.Shape {
+			case "sig/trunc":
+				sig = sig[:cs.N]
+			case "sig/zeros":
+				sig = make([]byte, cs.N)
+			case "sig/ones":
+				sig = bytes.Repeat([]byte{0xff}, cs.N)
+			case "sig/der":
+				sig = derShapes[cs.N]
+			case "sig/extend":
+				sig = append(append([]byte{}, sig...), make([]byte, cs.N)...)
+			case "header/trunc":
+				header = header[:cs.N]
+			case "header/extend":
+				header = append(append([]byte{}, header...), 0x00)
+			case "header/other-alg":
+				header = headerFor(cs.Arg)
+			default:
+				panic(cs.Part + "/" + cs.Shape)
+			}
+			sealed := assembleWithSig(sig, sigPayloadNode(header, p.Tag, nMap(p.Payload...)))
+			ctx.States(1)
+			ctx.Nontrivial(1)
+			decs := map[string]func(){
+				"token.FromSealed":             func() { token.FromSealed(sealed) },
+				"token.FromDagCbor":            func() { token.FromDagCbor(sealed) },
+				"delegation.FromSealed":        func() { delegation.FromSealed(sealed) },
+				"invocation.FromSealed":        func() { invocation.FromSealed(sealed) },
+				"invocation.FromSealedReader":  func() { invocation.FromSealedReader(bytes.NewReader(sealed)) },
+				"container.FromCbor(1 token)":  func() { w := container.NewWriter(); w.AddSealed(refCID(sealed), sealed); b, _ := w.ToCbor(); container.FromCbor(b) },
+			}
+			for name, f := range decs {
+				ctx.Eval(1)
+				ctx.Trans(1)
+				if pan, stack := callNoPanic(f); pan != nil {
+					ctx.Outcome("panic")
+					ctx.Failf(cs, "panic/"+panicSite(stack), "%s panics on a %s-issued envelope with %s %s n=%d %s: %v", name, cs.Alg, cs.Part, cs.Shape, cs.N, cs.Arg, pan)
+				} else {
+					ctx.Outcome("returned")
+				}
+			}
+		},
+	}
+}
+
 // ---- policy matching against arbitrary argument data ----
 
 type c09MatchCase struct {
@@ -498,6 +606,84 @@ func c09MatchSub() *engine.Sub {
 				} else {
 					ctx.Outcome("returned")
 				}
+			}
+		},
+	}
+}
+
+// ---- like patterns from an untrusted policy, matched against arbitrary strings ----
+
+type c09GlobCase struct {
+	Pattern string  `json:"pattern"`
+	Str     *string `json:"str,omitempty"`
+	MaxLen  int     `json:"max_len"`
+}
+
+func (c *c09GlobCase) Weight() int { return len(c.Pattern) }
+
+func c09GlobSub() *engine.Sub {
+	return &engine.Sub{
+		Name:   "untrusted-like-patterns",
+		Repeat: true,
+		Rule:   `every like pattern over {a,b,*,\} up to the length bound, offered as an untrusted policy through policy.FromIPLD and policy.FromDagJson (and to the constructor policy.Like): each returns a policy or an error without panicking; every accepted policy is matched (Match and PartialMatch) against every string over the same alphabet up to the bound and against non-string data: no panic; non-trivial = pattern accepted`,
+		Bound:  func(t string) string { return fmt.Sprintf("patterns and strings of length <=%d over 4 symbols, 3 entry points", tierN(t, 4, 5)) },
+		Gen: func(tier string, emit func(any) bool) {
+			n := tierN(tier, 4, 5)
+			allStrings(c13Alphabet, n, func(p string) bool { return emit(&c09GlobCase{Pattern: p, MaxLen: n}) })
+		},
+		NewCase: func() any { return &c09GlobCase{} },
+		Run: func(ctx *engine.Ctx, c any) {
+			cs := c.(*c09GlobCase)
+			var pols []policy.Policy
+			ctx.States(1)
+			for name, mk := range map[string]func() (policy.Policy, error){
+				"FromIPLD": func() (policy.Policy, error) { return policy.FromIPLD(likeNode(".", cs.Pattern)) },
+				"FromDagJson": func() (policy.Policy, error) {
+					js, _ := json.Marshal(cs.Pattern)
+					return policy.FromDagJson(`[["like", ".", ` + string(js) + `]]`)
+				},
+				"Like": func() (policy.Policy, error) { return policy.Construct(policy.Like(".", cs.Pattern)) },
+			} {
+				ctx.Eval(1)
+				var p policy.Policy
+				var err error
+				if pan, stack := callNoPanic(func() { p, err = mk() }); pan != nil {
+					ctx.Outcome("panic")
+					ctx.Failf(&c09GlobCase{Pattern: cs.Pattern, MaxLen: cs.MaxLen}, "panic/"+panicSite(stack), "policy.%s with like pattern %q panics: %v", name, cs.Pattern, pan)
+					continue
+				}
+				if err == nil {
+					pols = append(pols, p)
+				}
+			}
+			if len(pols) == 0 {
+				ctx.Outcome("pattern-rejected")
+				return
+			}
+			ctx.Nontrivial(1)
+			try := func(desc string, n datamodel.Node, rc *c09GlobCase) {
+				for _, p := range pols {
+					ctx.Eval(2)
+					ctx.Trans(1)
+					if pan, stack := callNoPanic(func() { p.Match(n); p.PartialMatch(n) }); pan != nil {
+						ctx.Outcome("panic")
+						ctx.Failf(rc, "policy-match-panics/"+panicSite(stack), "like %q matched against %s panics: %v", cs.Pattern, desc, pan)
+						return
+					}
+				}
+				ctx.Outcome("returned")
+			}
+			if cs.Str != nil {
+				try(fmt.Sprintf("%q", *cs.Str), nStr(*cs.Str), cs)
+				return
+			}
+			allStrings(c13Alphabet, cs.MaxLen, func(str string) bool {
+				sc := str
+				try(fmt.Sprintf("%q", str), nStr(str), &c09GlobCase{Pattern: cs.Pattern, Str: &sc, MaxLen: cs.MaxLen})
+				return true
+			})
+			for _, d := range c09HostileData() {
+				try(d.Name, d.Node, &c09GlobCase{Pattern: cs.Pattern, MaxLen: cs.MaxLen})
 			}
 		},
 	}
@@ -860,7 +1046,7 @@ func C09() *engine.Check {
 	return &engine.Check{
 		Property: "C09",
 		Level:    "model_checking",
-		Subs:     []*engine.Sub{c09ShortSub(), c09MutSub(), c09SignedSub(), c09MatchSub(), c09ScaleSub()},
+		Subs:     []*engine.Sub{c09ShortSub(), c09MutSub(), c09SignedSub(), c09EnvSub(), c09MatchSub(), c09GlobSub(), c09ScaleSub()},
 		Assumptions: []string{
 			"'every input' is covered for all inputs up to 2 (quick) / 3 (thorough) bytes, all distance-1 mutants of 14 valid artefacts, a grammar of well-signed malformed payloads and 36 scaling families up to 256 KiB / 4 MiB; no random inputs are used",
 			"memory clause: peak resident set growth of a fresh worker process <= 128 MiB + 1024 x input length; termination clause: 120 s per input (inputs of at most 4 MiB; the slowest conforming family needs < 5 s)",
